@@ -2,6 +2,8 @@
 //
 //	mode "fake" (default): behaviours on the real jobs.Job with fake nodes (fake.go)
 //	mode "real": recovery scenarios on real workers (real.go)
+//	mode "restart": behaviours of spec/Restart.tla (one cut per restart: C13 / C16 / C01) on the real jobs.Job
+//	                with fake nodes, start() stepped and the store's publication gated (restart.go)
 package main
 
 import (
@@ -13,6 +15,8 @@ func main() {
 		switch in.CfgStr("mode", "fake") {
 		case "real":
 			replayReal(bi, beh, in, res)
+		case "restart":
+			replayRestart(bi, beh, in, res)
 		default:
 			replayFake(bi, beh, in, res)
 		}
